@@ -30,7 +30,7 @@ def base_constants():
         "InitTreesH": tlc.Sub("MCInitTreesH1"),
         "LeafKinds": {"W", "CF", "CD", "MV"},
         "AllowPairs": False, "AllowSelective": True, "AllowReopen": False, "AllowSetLimit": False,
-        "IgnoredNames": set(), "AnyPairs": False,
+        "IgnoredNames": set(), "AnyPairs": False, "RootOnly": set(), "ExclusivePairs": tlc.Sub("MCNoPairs"),
     }
 
 
